@@ -327,6 +327,16 @@ func (p *C12) Generate(seed uint64, run int) *Case {
 		})
 	}
 	if r.Chance(1, 3) {
+		// the command is run from an interactive shell: standard output is a
+		// terminal and the result goes to the -o file. (What a command shows ON a
+		// terminal is not compared: colouring for a terminal is a rendition a
+		// tree may choose; what it writes into a file is the result.)
+		add("outpath:tty", func(st *Step) {
+			st.StdoutTTY = true
+			st.Argv = append(st.Argv, "-o", outPath)
+		})
+	}
+	if r.Chance(1, 3) {
 		// standard output is a regular file that already holds data (>> log)
 		add("stdout:file-append", func(st *Step) {
 			st.Stdout = &simrt.WritePlan{Kind: "file", Existing: model.Pick(r, []int{1, 17, 4096, 100000})}
